@@ -56,3 +56,90 @@ fn c16_offset() {
     let c = d.di.cmd(0);
     assert!(c.op == 0x37 && c.len == 2 && c.p[0] == (off >> 8) as u8 && c.p[1] == (off & 0xff) as u8);
 }
+
+// ---------------------------------------------------------------------------------------- C01 / C10
+use embedded_graphics_core::geometry::{Dimensions, OriginDimensions};
+use embedded_graphics_core::pixelcolor::{raw::RawU16, Rgb565};
+use embedded_graphics_core::prelude::RawData;
+
+fn any_color() -> Rgb565 {
+    Rgb565::from(RawU16::new(kani::any()))
+}
+
+/// decode the three commands of a one-window burst recorded at positions i..i+3
+fn window_at<const W: u16, const H: u16>(d: &Disp<W, H>, i: usize) -> (u16, u16, u16, u16) {
+    let (c, r, m) = (d.di.cmd(i), d.di.cmd(i + 1), d.di.cmd(i + 2));
+    assert!(c.op == 0x2A && c.len == 4 && r.op == 0x2B && r.len == 4 && m.op == 0x2C && m.len == 0);
+    (u16::from_be_bytes([c.p[0], c.p[1]]), u16::from_be_bytes([r.p[0], r.p[1]]),
+     u16::from_be_bytes([c.p[2], c.p[3]]), u16::from_be_bytes([r.p[2], r.p[3]]))
+}
+
+/// the cell the controller writes for address (c, r) must be the cell the statement names for (x, y)
+fn assert_lands<const W: u16, const H: u16>(d: &Disp<W, H>, madctl: u8, c: u16, r: u16, x: u16, y: u16) {
+    let o = d.options.orientation;
+    let (w, h) = (d.options.display_size.0 as i64, d.options.display_size.1 as i64);
+    let (ox, oy) = (d.options.display_offset.0 as i64, d.options.display_offset.1 as i64);
+    let pc = oracle_panel_cell(o, w, h, x as i64, y as i64);
+    let got = oracle_ctrl_phys(madctl, W as i64, H as i64, c as i64, r as i64);
+    assert!(got == (ox + pc.0, oy + pc.1));
+    assert!(0 <= got.0 && got.0 < W as i64 && 0 <= got.1 && got.1 < H as i64);
+}
+
+fn c01_set_pixel<const W: u16, const H: u16>() {
+    let clock = Clock::new();
+    let mut d = any_display::<W, H>(&clock);
+    let madctl = oracle_madctl(d.options.color_order, d.options.orientation, d.options.refresh_order);
+    let (lw, lh) = oracle_logical_size(d.options.orientation, d.options.display_size.0, d.options.display_size.1);
+    let (x, y): (u16, u16) = (kani::any(), kani::any());
+    kani::assume(x < lw && y < lh);
+    assert!(d.set_pixel(x, y, any_color()).is_ok());
+    assert!(d.di.ncmd == 3 && d.di.px_calls == 1 && d.di.px_count == 1 && d.di.px_after_cmds == 3);
+    let (sc, sr, ec, er) = window_at(&d, 0);
+    assert!(sc == ec && sr == er);
+    assert_lands(&d, madctl, sc, sr, x, y);
+    kani::cover!(x > 0 && y > 0 && d.options.display_offset.0 > 0);
+}
+#[kani::proof]
+fn c01_set_pixel_1x1() { c01_set_pixel::<1, 1>() }
+#[kani::proof]
+fn c01_set_pixel_240x320() { c01_set_pixel::<240, 320>() }
+#[kani::proof]
+fn c01_set_pixel_320x240() { c01_set_pixel::<320, 240>() }
+#[kani::proof]
+fn c01_set_pixel_max() { c01_set_pixel::<65535, 65535>() }
+
+/// C10: after set_orientation everything observable agrees with the new orientation
+fn c10_set_orientation<const W: u16, const H: u16>() {
+    let clock = Clock::new();
+    let mut d = any_display::<W, H>(&clock);
+    let before = d.options.clone();
+    let o2 = any_orientation();
+    assert!(d.set_orientation(o2).is_ok());
+    // bus: exactly one MADCTL with the encoding of (old colour order, new orientation, old refresh order)
+    let want = oracle_madctl(before.color_order, o2, before.refresh_order);
+    let c = d.di.cmd(0);
+    assert!(d.di.ncmd == 1 && c.op == 0x36 && c.len == 1 && c.p[0] == want);
+    // reported state
+    assert!(d.orientation() == o2);
+    let (lw, lh) = oracle_logical_size(o2, before.display_size.0, before.display_size.1);
+    assert!(d.size().width == lw as u32 && d.size().height == lh as u32);
+    assert!(d.bounding_box().size == d.size());
+    // same driver state as a display built with o2
+    let mut fresh = before.clone();
+    fresh.orientation = o2;
+    assert!(d.madctl == dcs::SetAddressMode::from(&fresh));
+    assert!(d.options.display_size == before.display_size && d.options.display_offset == before.display_offset);
+    assert!(d.options.color_order == before.color_order && d.options.refresh_order == before.refresh_order);
+    // placement of subsequent drawing
+    let (x, y): (u16, u16) = (kani::any(), kani::any());
+    kani::assume(x < lw && y < lh);
+    assert!(d.set_pixel(x, y, any_color()).is_ok());
+    let (sc, sr, ec, er) = window_at(&d, 1);
+    assert!(sc == ec && sr == er);
+    assert_lands(&d, want, sc, sr, x, y);
+    kani::cover!(o2 != before.orientation);
+}
+#[kani::proof]
+fn c10_set_orientation_240x320() { c10_set_orientation::<240, 320>() }
+#[kani::proof]
+fn c10_set_orientation_max() { c10_set_orientation::<65535, 65535>() }
